@@ -295,6 +295,9 @@ GEN_FAULTS = {
     "generic_lambda_return_type_fixed_by_two_arguments": "Helper.mapWith(true, 3, (x) -> x)",
     "generic_method_lambda_return_type": 'Cell.init("s").fold(1, (acc, s) -> acc == 41)',
     "generic_lambda_parameter_misused": "Helper.applyTwice(20, (x) -> if x { 1 } else { 2 })",
+    # an explicit parameter annotation that contradicts the function type expected at the use site
+    "annotated_lambda_parameter_contradicts_callee": "Helper.apply((x: bool) -> 41)",
+    "annotated_lambda_parameter_contradicts_let": "{ let f: (int) -> int = (x: bool) -> 41; f(1) }",
     "function_type_inside_type_argument": "Helper.cellFn(Cell.init((x: int) -> true))",
     "tuple_arity": "Helper.pairFirst((1, 2, 3))",
     "tuple_third_component": 'Helper.tripleSum((1, 2, "x"))',
